@@ -32,12 +32,15 @@ type Case struct {
 	MapSeed  uint64               `json:"map_seed"`
 	Clients  []harness.ClientSpec `json:"clients,omitempty"`
 	// SecondPrepare: "" | "before" | "during" (see harness.Spec.SecondPrepare).
-	SecondPrepare string           `json:"second_prepare,omitempty"`
-	Schedule      []simrt.Decision `json:"schedule,omitempty"` // explicit decision list (replay / minimised)
-	Extra         map[string]any   `json:"extra,omitempty"`
-	Prov          *ProvCase        `json:"prov,omitempty"` // class P: one step provider driven directly
-	Prep          *PrepCase        `json:"prep,omitempty"` // preparation-only case (C10, C16)
-	Eng           *EngCase         `json:"eng,omitempty"`  // class E: engine API from files on disk (C20)
+	SecondPrepare string `json:"second_prepare,omitempty"`
+	// Program2, when set, is what the second preparation is made from: the same workflow text as Program
+	// with other contents in the sub-workflow files it names.
+	Program2 *ir.Program      `json:"program2,omitempty"`
+	Schedule []simrt.Decision `json:"schedule,omitempty"` // explicit decision list (replay / minimised)
+	Extra    map[string]any   `json:"extra,omitempty"`
+	Prov     *ProvCase        `json:"prov,omitempty"` // class P: one step provider driven directly
+	Prep     *PrepCase        `json:"prep,omitempty"` // preparation-only case (C10, C16)
+	Eng      *EngCase         `json:"eng,omitempty"`  // class E: engine API from files on disk (C20)
 }
 
 // ShapeKey is the coarse signature of the workload (distinctness measure of the evidence).
@@ -77,6 +80,9 @@ func (c *Case) Spec(journal bool) harness.Spec {
 	}
 	if c.Program != nil {
 		sp.Text, sp.Files = c.Program.YAML(), c.Program.Files()
+	}
+	if c.Program2 != nil {
+		sp.Files2 = c.Program2.Files()
 	}
 	if c.Schedule != nil {
 		sp.Replay = c.Schedule
